@@ -85,12 +85,32 @@ class Builtins:
         else:
             cst = z3.Const(f"A!{next(_c)}", lam.sort())
             k = z3.Const("k!na", lam.sort().domain())
-            fact = z3.ForAll([k], z3.Select(cst, k) == z3.substitute_vars(lam.body(), k),
-                             patterns=[z3.Select(cst, k)])
+            body_k = z3.substitute_vars(lam.body(), k)
+            pats = [z3.Select(cst, k)]
+            # either side names the other: if the defining term is itself a function application it is a
+            # second trigger (boolean / arithmetic / if-then-else terms are not valid patterns)
+            if z3.is_app(body_k) and body_k.decl().kind() in (z3.Z3_OP_UNINTERPRETED, z3.Z3_OP_SELECT) \
+                    and self._pattern_ok(body_k) and self._mentions(body_k, k):
+                pats.append(body_k)
+            fact = z3.ForAll([k], z3.Select(cst, k) == body_k, patterns=pats)
             e.named_arrays[key] = (cst, fact, lam)
         if not any(fact.eq(x) for x in e.st.pc[-40:]):
             e.assume(fact)
         return cst
+
+    def _pattern_ok(self, term):
+        bad = (z3.Z3_OP_ITE, z3.Z3_OP_AND, z3.Z3_OP_OR, z3.Z3_OP_NOT, z3.Z3_OP_IMPLIES, z3.Z3_OP_EQ, z3.Z3_OP_LE,
+               z3.Z3_OP_LT, z3.Z3_OP_GE, z3.Z3_OP_GT, z3.Z3_OP_ADD, z3.Z3_OP_SUB, z3.Z3_OP_MUL)
+        st = [term]
+        while st:
+            t = st.pop()
+            if z3.is_quantifier(t):
+                return False
+            if z3.is_app(t):
+                if t.decl().kind() in bad:
+                    return False
+                st.extend(t.children())
+        return True
 
     def _mentions(self, term, var):
         seen = set()
@@ -211,6 +231,13 @@ class Builtins:
     def clamp(self, v, n, default):
         if v is None:
             return default
+        if v.ty.kind == "none":
+            return default
+        if v.ty.kind == "opt":
+            # a slice bound that is None means "default"
+            i = v.t
+            i = z3.If(i < 0, i + n, i)
+            return z3.If(self.e.is_none(v), default, z3.If(i < 0, 0, z3.If(i > n, n, i)))
         i = self.e.coerce(v, T.INT).t
         i = z3.If(i < 0, i + n, i)
         return z3.If(i < 0, 0, z3.If(i > n, n, i))
@@ -388,23 +415,29 @@ class Builtins:
         if not g.ifs:
             arr = z3.Lambda([j], elt.t)
             return e.new_list(ety, nsrc, arr)
-        # filter: order-preserving sub-sequence, axiomatised through an index map
+        # filter: order-preserving sub-sequence, axiomatised through an index map m (position in src of
+        # the k-th kept element) and its inverse inv (rank of a kept src position).  Triggers: an element
+        # of the result names m(k); an element of the source names inv(j) and the result element there.
         P = z3.And(*conds)
-        m = z3.Function(f"fidx!{n.lineno}_{next(_c)}", I, I)      # position in src of the k-th kept element
-        inv = z3.Function(f"finv!{n.lineno}_{next(_c)}", I, I)    # rank of src position
+        m = z3.Function(f"fidx!{n.lineno}_{next(_c)}", I, I)
+        inv = z3.Function(f"finv!{n.lineno}_{next(_c)}", I, I)
         k, k2 = z3.Ints("k!f k2!f")
         ln = z3.Int(f"flen!{n.lineno}_{next(_c)}")
+        out_arr = z3.Const(f"fout!{n.lineno}_{next(_c)}", z3.ArraySort(I, T.sort_of(elt.ty)))
         Pk = z3.substitute(P, (j, m(k)))
         elt_k = z3.substitute(elt.t, (j, m(k)))
         e.assume(z3.And(ln >= 0, ln <= nsrc))
+        e.assume(z3.ForAll([k], z3.Implies(z3.And(0 <= k, k < ln),
+                                           z3.And(0 <= m(k), m(k) < nsrc, Pk, z3.Select(out_arr, k) == elt_k)),
+                           patterns=[z3.Select(out_arr, k)]))
         e.assume(z3.ForAll([k], z3.Implies(z3.And(0 <= k, k < ln), z3.And(0 <= m(k), m(k) < nsrc, Pk)),
                            patterns=[m(k)]))
         e.assume(z3.ForAll([k, k2], z3.Implies(z3.And(0 <= k, k < k2, k2 < ln), m(k) < m(k2)),
                            patterns=[z3.MultiPattern(m(k), m(k2))]))
         e.assume(z3.ForAll([j], z3.Implies(z3.And(0 <= j, j < nsrc, P),
-                                           z3.And(0 <= inv(j), inv(j) < ln, m(inv(j)) == j)), patterns=[inv(j)]))
-        arr = z3.Lambda([k], elt_k)
-        out = e.new_list(ety, ln, arr)
+                                           z3.And(0 <= inv(j), inv(j) < ln, m(inv(j)) == j,
+                                                  z3.Select(out_arr, inv(j)) == elt.t)), patterns=[x.t]))
+        out = e.new_list(ety, ln, out_arr)
         out.view = ("filter", m, inv, src, P, j)
         return out
 
